@@ -118,6 +118,22 @@ def _neg(test):
     return _not(copy.deepcopy(test))
 
 
+def _fallthrough(st):
+    """conditions known to hold when control falls out of statement ``st``: for an ``if`` whose body always leaves
+    (continue / break / return / raise) the negated test, plus what falls out of its else branch (elif chains); for an
+    ``if`` whose else branch always leaves, the test."""
+    if not isinstance(st, ast.If):
+        return set()
+    if st.body and isinstance(st.body[-1], _TERMINATORS):
+        out = {unparse(_neg(st.test))}
+        for s_ in st.orelse:
+            out |= _fallthrough(s_)
+        return out
+    if st.orelse and isinstance(st.orelse[-1], _TERMINATORS):
+        return {unparse(st.test)}
+    return set()
+
+
 def conditions_at(fn, node):
     """texts of the conditions known to hold when ``node`` (inside ``fn``) executes: tests of the enclosing ``if`` (negated
     on the else side) and negated tests of earlier sibling guards ``if c: continue / break / return / raise``."""
@@ -135,8 +151,7 @@ def conditions_at(fn, node):
                 for sib in blk:
                     if sib is n:
                         break
-                    if isinstance(sib, ast.If) and not sib.orelse and sib.body and isinstance(sib.body[-1], _TERMINATORS):
-                        out.add(unparse(_neg(sib.test)))
+                    out |= _fallthrough(sib)
         n = par
     return out
 
